@@ -308,13 +308,14 @@ Definition step (s : st) (l : label) : option (R st) :=
                                 (nbusy s1 + busy)))
           | Some id =>
             (* set_result: pool.take(id).expect("Buffer should not be in use");
-               self.buffer.replace(buffer) drops a previous BufferRef *)
+               self.buffer.replace(buffer) stores the new BufferRef and drops a previous one *)
             match slot_take (slots s1) id with
             | None => Some (Panic P_OTHER)
             | Some sl =>
-              Some (let! s2 := reset_all (set_slots s1 sl) (o_buf o) in
-                    Ok (set_nbusy (upd_op s2 (c_op c) (mk_op (o_inflight o) (o_kdone o) [id] (o_q o) (Some (c_res c))))
-                                  (nbusy s2 + busy)))
+              let s2 := set_nbusy (upd_op (set_slots s1 sl) (c_op c)
+                                          (mk_op (o_inflight o) (o_kdone o) [id] (o_q o) (Some (c_res c))))
+                                  (nbusy s1 + busy) in
+              Some (reset_all s2 (o_buf o))
             end
           end
       end
